@@ -76,6 +76,9 @@ pub fn check_doc(ctx: &mut Ctx, b: &[u8], heavy: bool) {
     check_one(ctx, "whole:from_slice:input-discarded", parse_then_discard(b, |c| sonic_rs::from_slice::<Value>(c)), &d.root, b, mode);
     check_one(ctx, "whole:use_rawnumber:input-discarded", parse_then_discard(b, |c| Deserializer::from_slice(c).use_rawnumber().deserialize::<Value>()), &d.root, b, NumMode::Raw);
     check_one(ctx, "whole:utf8_lossy", Deserializer::from_slice(&ex).utf8_lossy().deserialize::<Value>(), &d.root, b, NumMode::Default);
+    // the options are independent of each other, whatever the order they are chosen in
+    check_one(ctx, "whole:use_rawnumber+utf8_lossy", Deserializer::from_slice(&ex).use_rawnumber().utf8_lossy().deserialize::<Value>(), &d.root, b, NumMode::Raw);
+    check_one(ctx, "whole:utf8_lossy+use_rawnumber", Deserializer::from_slice(&ex).utf8_lossy().use_rawnumber().deserialize::<Value>(), &d.root, b, NumMode::Raw);
     if !heavy {
         // embedded in a typed structure: copy parse into the deserializer's shared arena
         let mut w = Vec::with_capacity(b.len() + 16);
